@@ -245,9 +245,18 @@ TI_TEXT = ("[header]\nversion = 1.2\ntype = productmd.treeinfo\n\n[release]\nnam
            "[variant-Server]\nid = Server\nuid = Server\nname = Server\ntype = variant\n\n")
 
 
+TI_LEGACY_TEXT = ("[general]\nfamily = Spacewalk\nversion = 2.1\nname = Spacewalk-2.1\narch = x86_64\ntimestamp = 1\nvariant = Server\n"
+                  "packagedir = Packages\nrepository = .\n\n")
+REAL_NAMES = ["images/boot.iso", "images/pxeboot/vmlinuz", "images/pxeboot/initrd.img", "LiveOS/squashfs.img", "vmlinuz", "initrd.img",
+              # relative paths with an 'os' directory in them (the legacy reader cuts ABSOLUTE paths after /os/)
+              "xen/os/vmlinuz", "os/vmlinuz", "a/os/b/os/initrd.img", "x86_64/os/images/boot.iso", "repodata/repomd.xml"]
+
+
 def gen_section(rng, force=None):
     n = rng.randint(1, 6)
     names = sorted(set("%s%s.img" % (rng.choice("abcdefghij"), rng.choice(["", "/x", "0", "_1"])) for _ in range(n)))
+    if rng.random() < 0.4:
+        names = sorted(set(rng.sample(REAL_NAMES, min(len(REAL_NAMES), rng.randint(2, 7)))))
     entries = []
     for name in names:
         kind = rng.choice(["typed", "typed", "bare-good", "bare-good"])
@@ -277,8 +286,13 @@ def gen_section(rng, force=None):
     return out
 
 
-def check_section(ctx, pmt, entries):
-    textin = TI_TEXT + "[checksums]\n" + "".join("%s = %s\n" % (e["path"], e["line"]) for e in entries)
+def check_section(ctx, pmt, entries, legacy=None):
+    if legacy is None:
+        legacy = sum(len(e["path"]) for e in entries) % 3 == 0       # a third of the sections sit in a pre-productmd file
+    ctx.count("section-in-legacy-file" if legacy else "section-in-current-file")
+    if any("/os/" in e["path"] or e["path"].startswith("os/") for e in entries):
+        ctx.count("section-path-with-os-directory")
+    textin = (TI_LEGACY_TEXT if legacy else TI_TEXT) + "[checksums]\n" + "".join("%s = %s\n" % (e["path"], e["line"]) for e in entries)
     bad_positions = [i for i, e in enumerate(entries) if e["expect"] is None]
     for e in entries:
         ctx.count("section-" + (e["kind"] if e["kind"] != "typed" else "typed"))
@@ -287,7 +301,7 @@ def check_section(ctx, pmt, entries):
         ctx.count("section-bad-first" if i == 0 else "section-bad-last" if i == len(entries) - 1 else "section-bad-middle")
     else:
         ctx.count("section-all-good")
-    case = {"entries": entries}
+    case = {"entries": entries, "legacy": legacy}
     try:
         ti = pmt.TreeInfo()
         ti.loads(textin)
@@ -355,7 +369,8 @@ def check_history(ctx, pmi, rng, script=None):
             img = pmi.Image(None)
     sib_before = dict(sib.checksums) if sib is not None else None
     types = ["md5", "sha1", "sha256"]
-    vals = dict((t, [text.chars(rng, HEX, 8, 8) for _ in range(2)]) for t in types)
+    alphabet = HEX if rng.random() < 0.6 else "0123456789ABCDEF"
+    vals = dict((t, [text.chars(rng, alphabet, 8, 8) for _ in range(2)]) for t in types)
     ops = []
     for _ in range(rng.randint(3, 12)):
         t = rng.choice(types)
@@ -394,6 +409,18 @@ def check_history(ctx, pmi, rng, script=None):
             probs.append("a different value for %s was offered and no error was raised" % t)
         if got not in ("returned", "ValueError"):
             probs.append(got)
+        # writing the image (or the manifest it lives in) is an observation, not an update
+        rec = dict(img.checksums)
+        if got == "returned" and (len(ops) + step) % 2 == 0:
+            try:
+                img.serialize([])
+                if sib is not None:
+                    im.dumps()
+            except Exception:
+                pass
+            ctx.count("history-write-between-adds")
+            if dict(img.checksums) != rec:
+                probs.append("writing the image changed its recorded checksums from %r to %r" % (rec, dict(img.checksums)))
         if sib is not None and dict(sib.checksums) != sib_before:
             probs.append("the checksums of ANOTHER image of the manifest (%s) changed from %r to %r" % (sib.path, sib_before, dict(sib.checksums)))
         ctx.monitor("add-checksum-history", fired=bool(probs))
@@ -432,7 +459,7 @@ def run_shard(ctx):
 def replay(ctx, case):
     pmt, pmi = _pm()
     if "entries" in case:
-        check_section(ctx, pmt, case["entries"])
+        check_section(ctx, pmt, case["entries"], case.get("legacy"))
     elif "ops" in case:
         check_history(ctx, pmi, random.Random(0), script={"container": case.get("container", "none"), "ops": case["ops"]})
     elif "size" in case:
